@@ -74,7 +74,7 @@ func genStream(t *rapid.T, label string, max int) [][]byte {
 func TestC07(t *testing.T) {
 	rec := ev.Get("C07")
 	rec.Rule("first hello accepted (sealed, C03 generator) or passed through, then a client record stream (types 20-23; lengths weighted on 0 (application data), 1, 16383, 16384 and 16385..16640 for type 23), a backend stream (optional ServerHello, then records) split at drawn points over Write calls, a chunk schedule for transport reads (1 byte .. whole flight), caller buffer sizes 1..70000, and optionally a transport cut (EOF or error, reported on its own or together with the last bytes) at a drawn offset after the first record; in an eighth of the cases the backend's first record is a HelloRetryRequest and the client stream continues with (change_cipher_spec and) a well-formed retried hello, expected as its reconstructed inner hello followed by exactly the rest; in a sixth of the cases the transport's write side fails at a drawn offset (the error must surface, with only a prefix of the backend's bytes delivered); in a third of the cases the reads of a second, unrelated accepted connection are interleaved (connections share nothing). Oracle: concat(Read) == rewritten hello || rest up to the cut, error only after all bytes; transport writes are a prefix of backend writes with less than one complete record withheld; Write returns (len,nil). distinct = (schedule hash, cut, record lengths); non-trivial = a record straddles two chunks or two writes")
-	rec.Mandatory("chunks_1byte", "cut_in_header", "cut_in_body", "record_len0", "record_gt16384", "accepted", "passthrough", "backend_split", "nontrivial", "neighbour_conn", "hrr_then_retried_hello", "transport_write_fails", "end_error_with_last_bytes")
+	rec.Mandatory("chunks_1byte", "cut_in_header", "cut_in_body", "record_len0", "record_gt16384", "accepted", "passthrough", "backend_split", "nontrivial", "neighbour_conn", "hrr_then_retried_hello", "transport_write_fails", "end_error_with_last_bytes", "cut_by_timeout")
 	rapid.Check(t, func(t *rapid.T) {
 		accepted := rapid.Bool().Draw(t, "accepted")
 		var first, wantFirst []byte
@@ -146,8 +146,13 @@ func TestC07(t *testing.T) {
 				cutInRetry = true
 				cl = append(cl, "cut_inside_retry_flight")
 			}
-			if rapid.Bool().Draw(t, "cut_err") {
+			switch rapid.IntRange(0, 2).Draw(t, "cut_err") {
+			case 1:
 				endErr = wire.ErrInjected
+			case 2:
+				// a read deadline that expires mid-stream: an error like any other for this purpose
+				endErr = wire.ErrTimeout
+				cl = append(cl, "cut_by_timeout")
 			}
 			// classify
 			off := len(first) + len(retryIn)
